@@ -310,18 +310,10 @@ Section Conv.
 
   Definition shape_okb (sh : shape) : bool := forallb (fun d => 0 <=? d) sh.
 
-  (* GCXS.gcxs_wfb, except that a 0-d GCXS stores no indices at all (indices = x.coords, a
-     (0, nnz) array): there the canonical form is "at most one stored value" *)
-  Definition gcxs_wf0 (g : gcxs V) : bool :=
-    match g_shape g with
-    | [] => (length (g_data g) <=? 1)%nat && is_nil (g_indices g) && is_nil (g_indptr g) && is_nil (g_caxes g)
-    | _ => gcxs_wfb g
-    end.
-
   Definition wf_r (r : repr) : bool :=
     match r with
     | RCoo c => canonicalb c && shape_okb (c_shape c)
-    | RGcxs g => gcxs_wf0 g
+    | RGcxs g => gcxs_wfb g
     | RDok sh it _ => forallb (fun kv => in_rangeb sh (fst kv)) it && NoDup_idxb (map fst it) && shape_okb sh
     | RDense d _ => (length (d_flat d) =? length (all_indices (d_shape d)))%nat && shape_okb (d_shape d)
     end.
@@ -417,7 +409,6 @@ Arguments coo_reshape {V}.
 Arguments coo_transpose {V}.
 Arguments gcxs_from_coo {V}.
 Arguments gcxs_tocoo {V}.
-Arguments gcxs_wf0 {V}.
 Arguments gcxs_transpose_same {V}.
 Arguments gcxs_change_axes {V}.
 Arguments dok_items_of_coo {V}.
@@ -425,3 +416,25 @@ Arguments RCoo {V}.
 Arguments RGcxs {V}.
 Arguments RDok {V}.
 Arguments RDense {V}.
+Arguments keys_of {V}.
+Arguments sort_indices {V}.
+Arguments sum_dups_from {V}.
+Arguments sum_duplicates {V}.
+Arguments prune_entries {V}.
+Arguments coo_of_entries {V}.
+Arguments dict_set {V}.
+Arguments shape_r {V}.
+Arguments fill_r {V}.
+Arguments dok_as_coo {V}.
+Arguments dense_as_coo {V}.
+Arguments den_r {V}.
+Arguments wf_r {V}.
+Arguments gcxs_todense {V}.
+Arguments todense_r {V}.
+Arguments to_coo {V}.
+Arguments to_gcxs {V}.
+Arguments to_cs {V}.
+Arguments convert {V}.
+Arguments step {V}.
+Arguments run_chain {V}.
+Arguments run_trace {V}.
